@@ -25,13 +25,28 @@
 using namespace cppcms;
 
 typedef std::set<std::pair<int,std::pair<std::string,bool> > > table_type;
+static std::string hex0(std::string const &s) { std::string h=vh::hex(s); return h=="-"?std::string(""):h; }
 
 struct pred {
 	std::string type;
 	std::string arg;
-	booster::regex re;
+	booster::regex re,sre;
 	xss::rules::validator_type v;
 };
+
+// the text uri_parser::scheme() would take at the start of a value (what the scheme regex is applied to)
+static std::string scheme_text(char const *b,char const *e)
+{
+	std::string s;
+	if(b==e || !(('a'<=*b && *b<='z') || ('A'<=*b && *b<='Z'))) return s;
+	s+=*b++;
+	while(b!=e) {
+		char c=*b;
+		if(('a'<=c && c<='z') || ('A'<=c && c<='Z') || ('0'<=c && c<='9') || c=='+' || c=='-' || c=='.') { s+=c; b++; }
+		else break;
+	}
+	return s;
+}
 
 struct recording_validator {
 	int id;
@@ -41,6 +56,11 @@ struct recording_validator {
 	{
 		bool r = p->type=="re" ? booster::regex_match(b,e,p->re) : p->v(b,e);
 		table->insert(std::make_pair(id,std::make_pair(std::string(b,e),r)));
+		if(p->type=="uri" || p->type=="absuri") {
+			// verdict of the scheme regex (PCRE) on the scheme text: parameter of the Lean model of uri_parser
+			std::string sch=scheme_text(b,e);
+			table->insert(std::make_pair(id+1000,std::make_pair(sch,booster::regex_match(sch,p->sre))));
+		}
 		return r;
 	}
 };
@@ -88,8 +108,8 @@ static bool build(std::vector<std::string> const &w,built &b)
 		pred p; p.type=f[1];
 		if(f.size()>2 && !vh::unhex(f[2],p.arg)) return false;
 		if(p.type=="re") p.re=booster::regex(p.arg);
-		else if(p.type=="uri") p.v=xss::rules::uri_validator(p.arg,false);
-		else if(p.type=="absuri") p.v=xss::rules::uri_validator(p.arg,true);
+		else if(p.type=="uri") { p.v=xss::rules::uri_validator(p.arg,false); p.sre=booster::regex(p.arg); }
+		else if(p.type=="absuri") { p.v=xss::rules::uri_validator(p.arg,true); p.sre=booster::regex(p.arg); }
 		else if(p.type=="reluri") p.v=xss::rules::relative_uri_validator();
 		else return false;
 		b.preds[atoi(f[0].c_str())]=p;
@@ -199,7 +219,6 @@ static bool enc_is_utf8(std::string const &e)
 	for(size_t i=0;i<e.size();i++) { char c=e[i]; if(c>='A'&&c<='Z') c=c-'A'+'a'; if((c>='a'&&c<='z')||(c>='0'&&c<='9')) n+=c; }
 	return n=="utf8";
 }
-static std::string hex0(std::string const &s) { std::string h=vh::hex(s); return h=="-"?std::string(""):h; }
 static std::string enc_info(built const &b,std::string const &x,outcome const &o)
 {
 	if(b.enc.empty()) return "-";
@@ -229,6 +248,20 @@ static std::string enc_info(built const &b,std::string const &x,outcome const &o
 
 static std::string run(std::vector<std::string> const &w)
 {
+	if(w.size()==4 && w[0]=="U") {
+		// U kind schemehex valuehex : one call of the URI validator
+		std::string sch,v;
+		if(!vh::unhex(w[2].empty()?std::string("-"):w[2],sch) || !vh::unhex(w[3],v)) return "bad-op";
+		xss::rules::validator_type val;
+		if(w[1]=="uri") val=xss::rules::uri_validator(sch,false);
+		else if(w[1]=="absuri") val=xss::rules::uri_validator(sch,true);
+		else if(w[1]=="reluri") val=xss::rules::relative_uri_validator();
+		else return "bad-op";
+		bool r=val(v.c_str(),v.c_str()+v.size());
+		std::string st=scheme_text(v.c_str(),v.c_str()+v.size());
+		bool sv = w[1]=="reluri" ? false : booster::regex_match(st,booster::regex(sch));
+		return std::string(r?"1":"0")+" T=1000:"+hex0(st)+":"+(sv?"1":"0");
+	}
 	if(w.size()!=7) return "bad-op";
 	built b;
 	if(!build(w,b)) return "bad-op";
